@@ -11,10 +11,9 @@
      phc_job          the PHSF string of an encrypted entry has PHC shape      [create_output_wf_needs_phc: if it fails the
                       written archive is REJECTED by the recogniser]
      phc_ctx          the same for the cipher context of the solid entry      [solid_output_wf_needs: part of writable_solid]
-     small_pieces     every write the solid pipeline hands to the chunk sink is below 2^32 bytes (the width of a chunk's
-                      length field; a compressor property: compress_small gives it, small_pieces_of_compress_small)
-                                                                              [solid_output_wf_needs]
-   For file entries no size premise is added: wf_job's `fits` already bounds the data pieces.
+   No size premise: a write of 2^32 bytes or more that reaches a chunk sink is cut into several chunks (FlattenWriter
+   for the builders; ChunkStreamWriter::write since fix 45407aa2 for the streaming writers) — the premise small_pieces
+   of before that fix is gone from every theorem of this file (small_pieces_of_compress_small is kept as a fact).
    The name premise of C02_built_entries_writable (non-empty) and of C14 (valid_name) is derived from the tree:
    create_names_sane.  The model create_from_tree has no filter for empty names: it relies on tree_ok (p <> []) — the
    paths ".", "..", "./" that collect_items drops since fix 707e049c are the paths with NO Normal component;
@@ -131,17 +130,18 @@ Hypothesis E_len : forall a k b, len16 b -> len16 (E a k b).
 Notation build_job := (build_job E compress).
 Notation wf_job := (wf_job E compress verify).
 
-(* a built entry holds no empty payload (PipelineFacts.normalize_build, with the key / IV sizes only) *)
+(* a built entry holds no empty payload and none of 2^32 bytes or more (PipelineFacts.normalize_build, with the key / IV
+   sizes only) *)
 Lemma normalize_built cfg ctx sp wcuts : key_iv_ok (c_key ctx) (c_iv ctx) = true ->
   normalize (build_normal E compress cfg ctx sp wcuts) = build_normal E compress cfg ctx sp wcuts.
 Proof.
   intro K. unfold normalize, build_normal. cbv zeta. cbn [n_hdr n_phsf n_extra n_data n_meta n_xattrs].
-  rewrite (filter_all nonempty); [reflexivity|].
-  unfold build_data, iv_part, flat_sink. apply Forall_app. split.
+  unfold cut_data. rewrite PiecesFacts.cutN_fixed; [reflexivity|].
+  unfold build_data, iv_part. apply Forall_app. split.
   - destruct (Pipeline.encrypted _); constructor; [|constructor].
     unfold key_iv_ok in K. apply andb_prop in K. destruct K as (_ & K). apply N.eqb_eq in K.
-    destruct (c_iv ctx); [discriminate K|reflexivity].
-  - apply Forall_forall. intros x Hx. apply filter_In in Hx. destruct Hx as (_ & Hx). destruct x; [discriminate|reflexivity].
+    split; [destruct (c_iv ctx); [discriminate K|discriminate]|]. apply PiecesFacts.CMAX_lt. rewrite K. reflexivity.
+  - apply flat_sink_at_bounded, PiecesFacts.CMAX_pos.
 Qed.
 
 Lemma normalize_jobs pw jobs : Forall (wf_job pw) jobs ->
@@ -202,36 +202,35 @@ Lemma plain_inner_writes cfg inner : Forall writable_normal inner -> plain_inner
 Proof. intros W _ _. exists inner. split; [exact W|apply solid_writes_stream]. Qed.
 
 Lemma streamed_solid_ok cfg ctx inner : key_iv_ok (c_key ctx) (c_iv ctx) = true -> phc_ctx cfg ctx ->
-  small_pieces E compress cfg ctx (solid_writes inner) -> Forall writable_normal inner ->
+  Forall writable_normal inner ->
   writable_solid (streamed_solid E compress cfg ctx (solid_writes inner)).
 Proof.
-  intros K PH SM W. destruct (solid_ctx_cases cfg ctx K PH) as [(EN & SC)|(EN & SC)].
-  - apply (streamed_solid_writable E compress E_len); [exact SC|exact SM|apply plain_inner_writes; exact W].
+  intros K PH W. destruct (solid_ctx_cases cfg ctx K PH) as [(EN & SC)|(EN & SC)].
+  - apply (streamed_solid_writable E compress E_len); [exact SC|apply plain_inner_writes; exact W].
   - replace (streamed_solid E compress cfg ctx (solid_writes inner))
       with (streamed_solid E compress cfg (with_sample ctx) (solid_writes inner))
       by (unfold streamed_solid, phsf_part; rewrite EN; reflexivity).
-    apply (streamed_solid_writable E compress E_len); [exact SC|exact SM|apply plain_inner_writes; exact W].
+    apply (streamed_solid_writable E compress E_len); [exact SC|apply plain_inner_writes; exact W].
 Qed.
 
 Lemma built_solid_ok cfg ctx inner : key_iv_ok (c_key ctx) (c_iv ctx) = true -> phc_ctx cfg ctx ->
-  small_pieces E compress cfg ctx (solid_writes inner) -> Forall writable_normal inner ->
+  Forall writable_normal inner ->
   writable_solid (build_solid E compress cfg ctx [] (solid_writes inner)).
 Proof.
-  intros K PH SM W. destruct (solid_ctx_cases cfg ctx K PH) as [(EN & SC)|(EN & SC)].
-  - apply (build_solid_writable E compress E_len); [exact SC|constructor|exact SM|apply plain_inner_writes; exact W].
+  intros K PH W. destruct (solid_ctx_cases cfg ctx K PH) as [(EN & SC)|(EN & SC)].
+  - apply (build_solid_writable E compress E_len); [exact SC|constructor|apply plain_inner_writes; exact W].
   - replace (build_solid E compress cfg ctx [] (solid_writes inner))
       with (build_solid E compress cfg (with_sample ctx) [] (solid_writes inner))
       by (unfold build_solid, phsf_part; rewrite EN; reflexivity).
-    apply (build_solid_writable E compress E_len); [exact SC|constructor|exact SM|apply plain_inner_writes; exact W].
+    apply (build_solid_writable E compress E_len); [exact SC|constructor|apply plain_inner_writes; exact W].
 Qed.
 
-(* what the two added premises are for: they are parts of writable_solid *)
-Lemma solid_output_wf_needs cfg ctx sw : writable_solid (streamed_solid E compress cfg ctx sw) ->
-  phc_ctx cfg ctx /\ small_pieces E compress cfg ctx sw.
+(* what the added premise is for: it is part of writable_solid.  (Until fix 45407aa2 there was a second one,
+   small_pieces: every write that reaches the SDAT sink below 2^32 bytes; the sink now cuts longer writes.) *)
+Lemma solid_output_wf_needs cfg ctx sw : writable_solid (streamed_solid E compress cfg ctx sw) -> phc_ctx cfg ctx.
 Proof.
-  intros (_ & _ & P & _ & S & _). unfold streamed_solid in *. cbn [so_hdr so_phsf so_data s_enc] in *. split.
-  - intro EN. unfold phsf_part in P. rewrite EN in P. cbn [phsf_ok] in P. exact (proj2 P).
-  - unfold small_pieces. apply Forall_app in S. exact (proj2 S).
+  intros (_ & _ & P & _). unfold streamed_solid in *. cbn [so_hdr so_phsf so_data s_enc] in *.
+  intro EN. unfold phsf_part in P. rewrite EN in P. cbn [phsf_ok] in P. exact (proj2 P).
 Qed.
 
 (* a compressor that hands on pieces below 2^32 bytes gives small_pieces (the inner entries' chunk writes are small) *)
@@ -250,14 +249,13 @@ Theorem create_solid_output_wf : forall c order t pw jobs cfg ctx,
   wf_tree t -> tree_ok t ->
   Forall2 carries jobs (create_from_tree c order t) -> Forall (wf_job pw) jobs -> Forall phc_job jobs ->
   key_iv_ok (c_key ctx) (c_iv ctx) = true -> phc_ctx cfg ctx ->
-  small_pieces E compress cfg ctx (solid_writes (map build_job jobs)) ->
   let a := write_raw_archive 0 [solid_archive_chunks E compress cfg ctx (solid_writes (map build_job jobs))] in
   let es := [RSolid (streamed_solid E compress cfg ctx (solid_writes (map build_job jobs)))] in
   wf_archive a = true /\ strict_decode a = Ok es /\
   entries read_chunk_stream a = Ok (es, FinOk) /\ entries read_chunk_slice a = Ok (es, FinOk) /\
   inner_entries (solid_plain_stream (map build_job jobs)) = SOk (map (fun j => RNormal (build_job j)) jobs).
 Proof.
-  intros c order t pw jobs cfg ctx WF TOK Hc Hw Hp K PH SM a es.
+  intros c order t pw jobs cfg ctx WF TOK Hc Hw Hp K PH a es.
   pose proof (created_writable pw c order t jobs WF TOK Hc Hw Hp) as WN.
   assert (W : Forall writable es).
   { constructor; [|constructor]. cbn [writable]. apply streamed_solid_ok; assumption. }
@@ -290,14 +288,13 @@ Theorem create_solid_split_output_wf : forall c order t pw jobs cfg ctx max part
   wf_tree t -> tree_ok t ->
   Forall2 carries jobs (create_from_tree c order t) -> Forall (wf_job pw) jobs -> Forall phc_job jobs ->
   key_iv_ok (c_key ctx) (c_iv ctx) = true -> phc_ctx cfg ctx ->
-  small_pieces E compress cfg ctx (solid_writes (map build_job jobs)) ->
   let s := build_solid E compress cfg ctx [] (solid_writes (map build_job jobs)) in
   Split.write_split max [map of_c (ser_solid s)] = Ok parts ->
   wf_parts (map ser_pfile parts) = true /\
   (forall i f, nth_error parts i = Some f -> wf_part (N.of_nat i) (ser_pfile f) = true /\ len (ser_pfile f) <= max) /\
   exists xs', strict_parts (map ser_pfile parts) = SOk xs' /\ Forall2 entry_same [RSolid s] xs'.
 Proof.
-  intros c order t pw jobs cfg ctx max parts WF TOK Hc Hw Hp K PH SM s H.
+  intros c order t pw jobs cfg ctx max parts WF TOK Hc Hw Hp K PH s H.
   pose proof (created_writable pw c order t jobs WF TOK Hc Hw Hp) as WN.
   assert (W : Forall writable [RSolid s]).
   { constructor; [|constructor]. cbn [writable]. apply built_solid_ok; assumption. }
@@ -353,13 +350,12 @@ Example create_wf_premises : exists parts sparts,
   Forall2 carries tx_jobs (create_from_tree tx_c tx_order tx_tree) /\
   Forall (wf_job real_E_of tx_compress tx_verify tx_pw) tx_jobs /\ Forall phc_job tx_jobs /\
   key_iv_ok (c_key tx_ctx) (c_iv tx_ctx) = true /\ phc_ctx tx_cfg tx_ctx /\
-  small_pieces real_E_of tx_compress tx_cfg tx_ctx (solid_writes (map (build_job real_E_of tx_compress) tx_jobs)) /\
   Split.write_split 150 tx_split_input = Ok parts /\ length parts = 7%nat /\
   Split.write_split 300 [map of_c (ser_solid tx_solid)] = Ok sparts /\ length sparts = 5%nat.
 Proof.
-  destruct split_premises as (parts & sparts & P1 & P2 & P3 & _ & _ & P6 & P7 & _ & P9 & P10 & (K & _) & P12 & P13 & P14 & P15).
+  destruct split_premises as (parts & sparts & P1 & P2 & P3 & _ & _ & P6 & P7 & _ & P9 & P10 & (K & _) & P12 & P14 & P15).
   exists parts, sparts.
-  exact (conj P6 (conj P7 (conj P1 (conj P2 (conj P3 (conj K (conj P12 (conj P13 (conj P9 (conj P10 (conj P14 P15))))))))))).
+  exact (conj P6 (conj P7 (conj P1 (conj P2 (conj P3 (conj K (conj P12 (conj P9 (conj P10 (conj P14 P15)))))))))).
 Qed.
 
 (* the recogniser run in the kernel on what the model of `create` writes for that tree *)
